@@ -302,6 +302,8 @@ def check_c09(model, rep, tier):
     r_add_scan(model, rep, tier)
     check_atomic(model, rep, "R-ADD-ATOMIC", model.own_method("images.Images", "add"), builder_refs(model))
     r_single_writer(model, rep, "images.Images", "images", {"add", "__delitem__", "__init__"})
+    from .roundtrip import r_no_hidden_state
+    r_no_hidden_state(model, rep, ["images.Images"])
     r_load_via_add(model, rep)
     r_gate(model, rep, tier, only=["images.Images.add", "images.Images.deserialize"])
 
